@@ -13,12 +13,12 @@ FUNCTIONS = [
 STUBS = ["zlib.compressobj / decompressobj -> reference stateful codec model (props/zmodel.py): worst case of context take-over (message k of a context decodes only after 0..k-1 of the same context), window sizes checked, sync-flush tail 00 00 ff ff, max_length semantics",
          "transport -> recording objects for a real client and a real server; reactor -> twisted Clock; frame mask keys fixed", "loggers -> empty bodies"]
 ASSUMPTIONS = [
-    "losslessness of the real zlib/bz2/brotli/snappy streams (C libraries, input-length-dependent loops) is outside solver reach: decided here is everything around them (which (de)compressor is used, reset vs reuse, window sizes per direction, tail strip/re-append, RSV1 rules, negotiation); permessage-bzip2 is driven end to end over a one-stream-per-message codec model (6 negotiation settings); snappy/brotli classes (their C modules are not installed) are not driven",
+    "losslessness of the real zlib/bz2/brotli/snappy streams (C libraries, input-length-dependent loops) is outside solver reach: decided here is everything around them (which (de)compressor is used, reset vs reuse, window sizes per direction, tail strip/re-append, RSV1 rules, negotiation); permessage-bzip2 is driven end to end over a one-stream-per-message codec model (6 negotiation settings) and permessage-brotli over a contract model measured on brotli 1.2.0 (7 context-takeover settings incl. local overrides); the snappy classes (python-snappy is not installed) are not driven",
     "window-size and memory-level values are case-split over {0, 8, 9, 12, 15, 16} resp. {None, 1, 9, 10} (in- and out-of-range), booleans free",
 ]
 BOUNDS = {"quick": "offer x accept lattice: 2^3 x 6 offer parameters x 2 x 6 x 3 x 7 x 4 accept parameters, response x response-accept lattice likewise; end-to-end pairs: 12 negotiation settings x 3 messages per direction x {whole, fragmented, streaming, prepared, do-not-compress} with free payload octets; 14 malformed extension responses; compressed control frame / RSV1 on continuation",
           "thorough": "all window sizes 8..16, 4 messages per direction"}
-EXPECT_COVERS = ["pair:bzip2", "lattice:accept-ok", "lattice:accept-raises", "lattice:offer-raises", "pair:delivered", "pair:uncompressed", "client:refuses", "rx:rsv-violation"]
+EXPECT_COVERS = ["pair:bzip2", "pair:brotli", "lattice:accept-ok", "lattice:accept-raises", "lattice:offer-raises", "pair:delivered", "pair:uncompressed", "client:refuses", "rx:rsv-violation"]
 BUDGET = {"quick": dict(wall_s=300, max_paths=60000, diff_samples=3), "thorough": dict(wall_s=2400, max_paths=600000)}
 
 WB = [0, 8, 9, 12, 15, 16]
@@ -380,6 +380,178 @@ def pair_bzip2(sx, setting, api, nmsg):
     return [setting, api]
 
 
+class BRError(Exception):
+    pass
+
+
+class BRModel:
+    """stands in for the `brotli` module inside compress_brotli.py, by its measured contract (brotli 1.2.0): Compressor.process() buffers,
+    flush() emits what was buffered and keeps the encoder usable, finish() ends the stream - any use afterwards raises brotli.error
+    ("encoder failed"); Decompressor.process() raises brotli.error ("decoder failed") for octets after the end of its stream or foreign
+    data, is_finished() tells whether the stream has ended"""
+    error = BRError
+
+    def __init__(self):
+        self.created = [0, 0]
+
+    def Compressor(self, *a, **k):
+        self.created[0] += 1
+        return _BRC()
+
+    def Decompressor(self):
+        self.created[1] += 1
+        return _BRD()
+
+
+class _BRC:
+    def __init__(self):
+        self.buf, self.done = b"", False
+
+    def process(self, data):
+        if self.done:
+            raise BRError("brotli: encoder failed")
+        self.buf = self.buf + data
+        return b""
+
+    def _chunk(self):
+        out = bytes([0xB0, len(self.buf)]) + self.buf
+        self.buf = b""
+        return out
+
+    def flush(self):
+        if self.done:
+            raise BRError("brotli: encoder failed")
+        return self._chunk()
+
+    def finish(self):
+        if self.done:
+            raise BRError("brotli: encoder failed")
+        self.done = True
+        return self._chunk() + b"\xbf"
+
+
+class _BRD:
+    def __init__(self):
+        self.pending, self.left, self.state = b"", 0, "hdr"
+
+    def is_finished(self):
+        return self.state == "eof"
+
+    def process(self, data):
+        if len(data) == 0:
+            return b""
+        if self.state == "eof":
+            raise BRError("brotli: decoder failed")
+        buf = self.pending + data
+        out = b""
+        pos = 0
+        while pos < len(buf):
+            if self.state == "eof":
+                raise BRError("brotli: decoder failed")
+            if self.state == "hdr":
+                if buf[pos] == 0xBF:
+                    pos += 1
+                    self.state = "eof"
+                    continue
+                if buf[pos] != 0xB0:
+                    raise BRError("brotli: decoder failed")
+                if len(buf) - pos < 2:
+                    break
+                self.left = buf[pos + 1]
+                pos += 2
+                self.state = "body" if self.left else "hdr"
+            else:
+                take = min(self.left, len(buf) - pos)
+                out = out + buf[pos:pos + take]
+                pos += take
+                self.left -= take
+                if self.left == 0:
+                    self.state = "hdr"
+        self.pending = buf[pos:]
+        return out
+
+
+BR_SETTINGS = [
+    # offer(accept_no_context_takeover, request_no_context_takeover), server accept(request_no_context_takeover, no_context_takeover), client accept(no_context_takeover)
+    dict(o=(True, False), s=(False, None), c=None),        # context takeover both ways (the defaults)
+    dict(o=(True, True), s=(True, None), c=None),          # no context takeover both ways
+    dict(o=(True, False), s=(True, None), c=None),         # only client->server without takeover
+    dict(o=(True, True), s=(False, None), c=None),         # only server->client without takeover
+    dict(o=(True, False), s=(False, True), c=None),        # server resets its own compressor without having been asked (local override)
+    dict(o=(True, False), s=(False, None), c=True),        # client resets its own compressor without having been asked (local override)
+    dict(o=(False, False), s=(False, None), c=None),
+]
+
+
+def pair_brotli(sx, setting, api, nmsg):
+    """permessage-brotli negotiated by a real client and a real server: every message arrives identical, in every context-takeover mode"""
+    import autobahn.websocket.compress_brotli as cb
+    br = BRModel()
+    cb.brotli = br
+    kind = BR_SETTINGS[setting]
+
+    def server_accept(offers):
+        for o in offers:
+            if isinstance(o, cb.PerMessageBrotliOffer):
+                return cb.PerMessageBrotliOfferAccept(o, request_no_context_takeover=kind["s"][0] and o.accept_no_context_takeover, no_context_takeover=kind["s"][1])
+        return None
+
+    def client_accept(resp):
+        if isinstance(resp, cb.PerMessageBrotliResponse):
+            return cb.PerMessageBrotliResponseAccept(resp, no_context_takeover=kind["c"])
+        return None
+    offers = [cb.PerMessageBrotliOffer(*kind["o"])]
+    clock, trace, s, c, rnd = wslib.open_pair(sx, server_opts=dict(perMessageCompressionAccept=server_accept),
+                                              client_opts=dict(perMessageCompressionOffers=offers, perMessageCompressionAccept=client_accept))
+    info = dict(setting=setting, api=api, ext="brotli")
+    ok = s.p.state == s.p.STATE_OPEN and c.p.state == c.p.STATE_OPEN and s.p._perMessageCompress is not None and c.p._perMessageCompress is not None
+    sx.check(ok, "handshake-with-compression-completes", info=info)
+    if not ok:
+        return ["no-pmce"]
+    sx.check(type(s.p._perMessageCompress).__name__ == "PerMessageBrotli" and type(c.p._perMessageCompress).__name__ == "PerMessageBrotli", "negotiated-extension-is-the-offered-one", info=info)
+    # what was requested of a side is what that side does
+    if kind["o"][1]:
+        sx.check(s.p._perMessageCompress.server_no_context_takeover is True, "server-honours-requested-no-context-takeover", info=info)
+    if kind["s"][0] and kind["o"][0]:
+        sx.check(c.p._perMessageCompress.client_no_context_takeover is True, "client-honours-requested-no-context-takeover", info=info)
+    s.t.take(); c.t.take(); del trace[:]
+    for snd, rcv in ((c, s), (s, c)):
+        sent = []
+        try:
+            for k in range(nmsg):
+                pl = sx.bytes("m%s%d" % (snd.who, k), 2) + bytes([97 + k]) * k
+                if api == "empty" and k != 1:
+                    pl = b""
+                if api in ("message", "empty"):
+                    snd.p.sendMessage(pl, isBinary=True)
+                elif api == "fragmented":
+                    snd.p.sendMessage(pl, isBinary=True, fragmentSize=3)
+                elif api == "streaming":
+                    snd.p.beginMessage(isBinary=True)
+                    snd.p.sendMessageFrame(pl[:1])
+                    snd.p.sendMessageFrame(pl[1:])
+                    snd.p.endMessage()
+                sent.append(pl)
+        except Exception as e:  # noqa
+            sx.fail("exception-escapes-sender", info=dict(info, exc=repr(e), sender=snd.who, message=len(sent)))
+            return ["exc"]
+        wslib.drain(clock)
+        wire = wslib.concat(snd.t.take())
+        try:
+            wslib.deliver(rcv, wire, (3, len(wire) // 2))
+        except Exception as e:  # noqa
+            sx.fail("exception-escapes-receiver", info=dict(info, exc=repr(e), sender=snd.who))
+            return ["exc"]
+        got = trace.of(rcv.who, "msg")
+        sx.check(len(got) == nmsg, "every-message-delivered-once", info=dict(info, got=len(got), sender=snd.who))
+        for g, pl in zip(got, sent):
+            sx.check(g[2] == pl, "message-identical-after-compression", info=dict(info, sender=snd.who))
+        sx.check(rcv.t.closed is None, "connection-stays-open", info=dict(info, sender=snd.who))
+        del trace[:]
+    sx.cover("pair:brotli")
+    return [setting, api]
+
+
 def refused_send(sx, setting):
     """a send refused for exceeding maxMessagePayloadSize must not desynchronise the compression context for later messages"""
     import autobahn.websocket.compress_deflate as cd
@@ -518,6 +690,9 @@ def units(tier):
     for si in range(len(BZ_SETTINGS)):
         for api in ("message", "fragmented", "streaming", "empty"):
             U.append(("bzip2/%d/%s" % (si, api), "pair_bzip2", dict(setting=si, api=api, nmsg=2 if q else 3), dict(weight=3)))
+    for si in range(len(BR_SETTINGS)):
+        for api in ("message", "fragmented", "streaming", "empty"):
+            U.append(("brotli/%d/%s" % (si, api), "pair_brotli", dict(setting=si, api=api, nmsg=2 if q else 3), dict(weight=3)))
     for si in (0, 1, 2, 3):
         U.append(("refusedsend/%d" % si, "refused_send", dict(setting=si)))
     for i in range(len(BAD_RESPONSES)):
